@@ -26,6 +26,7 @@ import (
 //verif:stub os.Stat vStat
 //verif:stub os.Lstat vLstat
 //verif:stub os.Mkdir vMkdir
+//verif:stub os.Link vLink
 
 // ---- a model of a POSIX directory tree ---------------------------------------------------------------------------
 
@@ -259,6 +260,26 @@ func vLstat(name string) (os.FileInfo, error) {
 		return nil, os.ErrNotExist
 	}
 	return vInfo{name: filepath.Base(name), kind: n.kind, size: int64(len(n.content))}, nil
+}
+
+func vLink(oldname, newname string) error {
+	fs.before()
+	o, ok := fs.nodes[oldname]
+	if !ok {
+		return os.ErrNotExist
+	}
+	if o.kind != 2 {
+		return os.ErrInvalid
+	}
+	if _, ok := fs.nodes[newname]; ok {
+		return os.ErrExist
+	}
+	if !vParentIsDir(newname) {
+		return os.ErrNotExist
+	}
+	fs.nodes[newname] = &vNode{kind: 2, content: append([]byte{}, o.content...)} // files are never modified in place
+	vInvariant()
+	return nil
 }
 
 func vMkdir(name string, perm os.FileMode) error {
